@@ -260,7 +260,10 @@ def script_text(spec: Spec, variant: int, dofile: str, gates: bool = False) -> s
         q = " ".join('"%s"' % n.replace("%", "$2") for n in names)
         # "redo-fresh": a redo that is told nothing about the jobserver above it (MAKEFLAGS removed from its environment)
         # "redo-j2": an explicit -j2 inside a script (a jobserver of its own, with the "forced in sub-redo" warning)
-        tool = {"ifchange": "redo-ifchange", "redo-fresh": "env -u MAKEFLAGS redo", "redo-j2": "redo -j2"}.get(cmd, "redo")
+        # "make-j2": a `make -j2` in the middle (shim/rvmake: a token pipe of its own, knows nothing of redo) whose one recipe is
+        # `+redo-ifchange ...`
+        tool = {"ifchange": "redo-ifchange", "redo-fresh": "env -u MAKEFLAGS redo", "redo-j2": "redo -j2",
+                "make-j2": "rvmake 2 redo-ifchange"}.get(cmd, "redo")
         core = f'rc=0; {tool} {q} || rc=$?; echo "Q $rv_n {i} $rc" >> "$RV_TRACE"'
         L.append(('vgate n "work-end $rv_n"; ' + core + '; vgate n "work-begin $rv_n"') if gates else core)
     if spec.seq:
